@@ -125,7 +125,9 @@ package xdsresource
 //@   assert at return 5 result1 == nil && totalWeight <= math.MaxUint32
 
 // The whole resource: localities without an id are rejected, localities with
-// weight 0 are skipped; for every other locality the sum of the locality weights
+// weight 0 are skipped before any bookkeeping (they add no priority, no weight,
+// no address and no locality: the sets have the size they had when the
+// iteration began); for every other locality the sum of the locality weights
 // at its priority (kept in 64 bits) does not exceed MaxUint32 once it is
 // accepted; a (locality, priority) pair seen before rejects the resource; and an
 // accepted resource's priorities are exactly 0..n-1 (every j below the number of
@@ -138,6 +140,7 @@ package xdsresource
 //@   loop 2 invariant forallk(func(k uint32) bool { return sumOfWeights[k] <= math.MaxUint32 })
 //@   loop 3 invariant 0 <= i && forallk(func(k uint32) bool { return implies(int(k) < i, haskey(priorities, k)) })
 //@   loop 3 exit i >= len(priorities) && forallk(func(k uint32) bool { return implies(int(k) < len(priorities), haskey(priorities, k)) })
+//@   assert at call Warningf#1 weight == 0 && len(priorities) == athead(len(priorities)) && len(sumOfWeights) == athead(len(sumOfWeights)) && len(uniqueEndpointAddrs) == athead(len(uniqueEndpointAddrs)) && len(ret.Localities) == athead(len(ret.Localities))
 //@   assert at call LocalityString#1 weight > 0 && l != nil
 //@   assert at call LocalityString#1 sumOfWeights[priority] <= math.MaxUint32
 //@   assert at call LocalityString#1 Z(sumOfWeights[priority]) >= Z(weight)
